@@ -71,13 +71,17 @@ def qualname(node: ast.AST) -> str:
     """Dotted construct name: module.Class.method (nested defs joined by '.')."""
     parts: list[str] = []
     cur: ast.AST | None = node
+    top: ast.AST = node
     while cur is not None:
         if isinstance(cur, (ast.ClassDef, ast.FunctionDef, ast.AsyncFunctionDef)):
             parts.append(cur.name)
         elif isinstance(cur, ast.Lambda):
             parts.append('<lambda>')
+        top = cur
         cur = parent(cur)
-    return '.'.join([module_of(node).name] + parts[::-1])
+    # the construct is named after the module it stands in (an inlined statement keeps the module it was written in
+    # for name resolution and for file:line, but belongs to the function that contains it)
+    return '.'.join([module_of(top).name] + parts[::-1])
 
 
 def site(node: ast.AST) -> str:
